@@ -108,6 +108,15 @@ def make_mesh(pf, nx, ny, side="left", fam=0, asym=False, span=8.0, chord=1.5, o
     return m
 
 
+def force_floor(rho, v, meshes, rel=1e-6):
+    """absolute floor for force scales: rel x dynamic pressure x planform area.  Keeps comparisons of forces that are
+    pure round-off (a configuration that produces no lift at all) from dividing noise by noise."""
+    area = 0.0
+    for m in meshes:
+        area += abs(m[-1, :, 0] - m[0, :, 0]).mean() * abs(m[0, -1, 1] - m[0, 0, 1])
+    return rel * 0.5 * rho * v * v * max(area, 1e-12)
+
+
 def mirror_mesh(m):
     """reflection about the x-z plane with reversed spanwise node order (y stays increasing)"""
     return (m * np.array([1.0, -1.0, 1.0]))[:, ::-1, :].copy()
